@@ -371,7 +371,7 @@ func report(run *checkRun, wall float64, verbose, keep bool, engineErr bool) int
 		violations++
 		path := writeReplay(run, o, keep)
 		suffix := ""
-		if !strings.HasSuffix(path, ".confirmed") && (r.Status != "sat" || !replayConfirmed(path)) {
+		if !replayConfirmed(path) {
 			suffix = " no-failing-input-found"
 		}
 		lines = append(lines, fmt.Sprintf("VIOLATION property=%s replay=%s%s", prop, path, suffix))
